@@ -327,7 +327,7 @@ pub fn run(tier: Tier) -> i32 {
     ctx.assume("trusted base: rustls/webpki name matching below the anemo verifiers, x509-parser for the reference");
     let rep = grid(&ctx.known);
     ctx.push_report(rep);
-    ctx.run_part(Adversarial, tier.pick(10_000, 200_000));
-    ctx.run_part(VerifierNames, tier.pick(20_000, 400_000));
+    ctx.run_part(Adversarial, tier.pick(10_000, 1_000_000));
+    ctx.run_part(VerifierNames, tier.pick(20_000, 4_000_000));
     ctx.finish()
 }
